@@ -30,10 +30,10 @@ RULE = (
 ASSUMPTIONS = [
     "text is Unicode without control characters (Cc), surrogates and the XML-1.0-illegal U+FFFE/U+FFFF",
     "ignore patterns and the tool name are non-empty, as every caller guarantees",
-    "TZ=UTC during the check (offset correctness is C16)",
+    "the zone is set per case (UTC or a zone with daylight saving); offset correctness itself is C16, here only the instants must survive the round trip",
 ]
 BUDGET = {"quick": (600, 4), "thorough": (100000, 16)}
-REQUIRED = ["special_text", "line_separator_text", "size0", "previous_path", "reference", "dir_record", "roothash", "authors", "chain", "history_manifests", "chain_nonunique_or_gapped", "collection_files", "bulk_manifest", "bulk_history"]
+REQUIRED = ["special_text", "line_separator_text", "size0", "previous_path", "reference", "dir_record", "roothash", "authors", "chain", "history_manifests", "chain_nonunique_or_gapped", "collection_files", "bulk_manifest", "bulk_history", "zone_with_dst"]
 
 CLI = refhash.CLI_FORMATS
 _HEXLEN = {"md5": 32, "sha1": 40, "xxh128": 32, "xxh3": 16, "xxh64": 16}
@@ -92,9 +92,11 @@ def _object_case(draw):
         "roothash": [{"fmt": f, "digest": draw(_digest(f)), "structure": draw(_digest(f))} for f in rootfm],
         "patterns": draw(st.lists(st.one_of(gen.names("plain"), _text, st.sampled_from(["*.txt", "a/", ".DS_Store", "ascmhl", "ascmhl/"])), min_size=1, max_size=6, unique=True)),
         "references": draw(st.lists(st.tuples(gen.names("full"), st.binary(max_size=30).map(bytes.hex)).map(list), max_size=3, unique_by=lambda t: t[0])),
-        "chain": draw(st.lists(st.tuples(gen.names("full"), st.integers(0, 2**512 - 1).map(refhash.c4_encode_int)).map(list), max_size=8)),
+        "chain": draw(st.lists(st.tuples(st.one_of(gen.names("full"), _lsep), st.integers(0, 2**512 - 1).map(refhash.c4_encode_int)).map(list), max_size=8)),
         # a collection file lists every packing list with sequence number 1: numbers need not be distinct
         "chain_numbers": draw(st.sampled_from(["ascending", "ascending", "all_one", "gaps"])),
+        # the zone the manifest is written in: with daylight saving, hash dates of one manifest carry different offsets
+        "tz": draw(st.sampled_from(["UTC", "UTC", "Europe/Berlin", "America/St_Johns", "Australia/Lord_Howe"])),
     }
 
 
@@ -142,8 +144,7 @@ def _instant(s_or_dt):
         import dateutil.parser
 
         s_or_dt = dateutil.parser.parse(s_or_dt)
-    if s_or_dt.tzinfo is None:
-        return s_or_dt.replace(tzinfo=datetime.timezone.utc).timestamp()
+    # (a naive date is local time in the zone the case runs in: TZ is set around the whole case)
     return s_or_dt.timestamp()
 
 
@@ -162,8 +163,10 @@ def run_object(scn, ctx):
     from ascmhl.ignore import MHLIgnoreSpec
 
     old_tz = os.environ.get("TZ")
-    os.environ["TZ"] = "UTC"
+    os.environ["TZ"] = scn.get("tz", "UTC")
     time.tzset()
+    if scn.get("tz", "UTC") != "UTC":
+        ctx.event("zone_with_dst")
     try:
         with World("c10") as w:
             os.makedirs(w.abs("R/ascmhl"))
